@@ -81,6 +81,7 @@ type Exec struct {
 	witness    map[string]SV
 	defers     []deferred
 	strIters   []*ssa.Range
+	root       *Exec
 }
 
 type unsupportedErr struct{ msg string }
@@ -423,7 +424,9 @@ func newExec(q *Q, fn *ssa.Function, parent *Exec) *Exec {
 	ex := &Exec{q: q, P: q.P, fn: fn, vals: map[ssa.Value]Term{}, tuples: map[ssa.Value][]Term{}, locs: map[ssa.Value]*Loc{},
 		reach: map[*ssa.BasicBlock]Term{}, endHeap: map[*ssa.BasicBlock]*Heap{}, lstate: map[*ssa.BasicBlock]*loopState{},
 		counters: map[string]int{}, closures: map[ssa.Value]*ssa.MakeClosure{}, witness: map[string]SV{}}
+	ex.root = ex
 	if parent != nil {
+		ex.root = parent.root
 		ex.depth = parent.depth + 1
 		ex.stack = append(append([]*ssa.Function{}, parent.stack...), fn)
 		ex.counters = parent.counters
@@ -599,7 +602,9 @@ func (ex *Exec) instr(ins ssa.Instruction, b *ssa.BasicBlock, h *Heap, reach Ter
 				pl = l
 			} else {
 				pl = ex.locOf(x.X)
-				ex.safety("safe.nil", reach, not(eq(pl.base, tInt(0))), x, "nil array pointer")
+				if pl.kind != lkGlobal {
+					ex.safety("safe.nil", reach, not(eq(pl.base, tInt(0))), x, "nil array pointer")
+				}
 			}
 			if !(isByteType(x.Index.Type()) && at.Len() == 256) {
 				ex.safety("safe.index", reach, and(le(tInt(0), idx), lt(idx, tInt(at.Len()))), x, "array index")
@@ -1358,6 +1363,20 @@ func (ex *Exec) bvBinop(x *ssa.BinOp, a, b Term, reach Term) Term {
 	}
 	unsupported("bv binop %s", x.Op)
 	return Term{}
+}
+
+func (ex *Exec) bvResize(v Term, tw int, signed bool) Term {
+	fw := bvWidthOfSort(v.Sort)
+	ts := bvSort(tw)
+	switch {
+	case fw == tw:
+		return v
+	case fw > tw:
+		return app(ts, fmt.Sprintf("(_ extract %d 0)", tw-1), v)
+	case signed:
+		return app(ts, fmt.Sprintf("(_ sign_extend %d)", tw-fw), v)
+	}
+	return app(ts, fmt.Sprintf("(_ zero_extend %d)", tw-fw), v)
 }
 
 func fpDims(s string) string {
